@@ -42,7 +42,7 @@ ASSUMPTIONS = ["solutions are judged for scales >= 1e-7 (matrix scales 1e-6..1e1
                "check_reconstruction (all-identical-solution guard) is off in both configurations"]
 QUICK_JOBS = 16
 MIN_MONITORS = {"*": {"kkt.solver": 100, "kkt.solver.warm": 50, "backward.unconstrained": 10, "nnls.crosscheck": 20,
-                      "kkt.inversion": 20, "kkt.inversion.prod_defaults": 4, "forced_zero.exact": 4, "forced_zero.via_image_pixels": 4, "model_data.per_object": 10,
+                      "kkt.inversion": 20, "kkt.inversion.prod_defaults": 4, "forced_zero.exact": 4, "forced_zero.via_image_pixels": 4, "model_data.per_object": 10, "system.F_plus_H": 20,
                       "model_data.sum": 10, "path:warm_start_taken": 10, "path:fix_constraint_called": 1, "kkt.solver.tiny_solution": 4,
                       "path:several_parameters_reach_the_bound_in_one_step": 10, "settings.explicit_value_wins_over_config": 20}}
 
@@ -381,7 +381,17 @@ def check_inversion(ctx, case, objs, desc, st, B, offs, Wc, tag, monitor="kkt.in
         return False
     try:
         D = _np(inv.data_vector).copy()
+        # the system the solution is judged against is assembled here: F as the inversion reports it, H block by block from every
+        # object's OWN regularization (function lists may carry one too); what the inversion calls F+H must be that matrix
+        F_ = _np(inv.curvature_matrix).copy()
+        H_ = np.zeros_like(F_)
+        for j, o in enumerate(objs):
+            if o.regularization is not None:
+                H_[offs[j]:offs[j + 1], offs[j]:offs[j + 1]] = _np(o.regularization.regularization_matrix_from(linear_obj=o)).astype(float)
         A = _np(inv.curvature_reg_matrix).copy()
+        ctx.check(A.shape == F_.shape and float(np.abs(A - (F_ + H_)).max()) <= 1e-10 * max(float(np.abs(F_ + H_).max()), 1e-300), "system.F_plus_H",
+                  settings=tag, got=A, expected=F_ + H_, **Wc)
+        A = F_ + H_
         cond = float(np.linalg.cond(A))
     except Exception as e:
         ctx.check(False, monitor, settings=tag, exception=repr(e)[:300], **Wc)
